@@ -873,3 +873,54 @@ def inline_unknown(trees_by_relpath, unknown, report):
         if any(r == rel for (r, _) in touched):
             canonicalise(tree)
     return touched
+
+
+def inline_nested_unknown(trees_by_relpath, report):
+    """a nested function (closure) that the reference version of its parent does not have, and that is only ever
+    called inside the parent, is inlined at its call sites: a closure reads the parent's variables when it runs,
+    which is what the inlined body does"""
+    from .refnorm import load_inventory, local_names
+    from .canon import canonicalise
+
+    inv = load_inventory()
+    if inv is None:
+        return set()
+    ref = inv["modules"]
+    touched = set()
+    for rel, tree in trees_by_relpath.items():
+        rfns = ref.get(rel, {})
+        for q, fnode, cls in functions_of(tree):
+            r = rfns.get(q)
+            if r is None:
+                continue
+            ref_locals = set(r["locals"])
+            nested = [n for n in _walk_own(fnode) if isinstance(n, (ast.FunctionDef,)) and n.name not in ref_locals]
+            for g in nested:
+                name = g.name
+                callfuncs = {id(n.func) for n in ast.walk(fnode) if isinstance(n, ast.Call)}
+                refs = [n for n in ast.walk(fnode) if isinstance(n, ast.Name) and n.id == name]
+                if not refs or any(not isinstance(n.ctx, ast.Load) or id(n) not in callfuncs for n in refs):
+                    continue
+                if any(isinstance(n, ast.Name) and n.id == name for n in ast.walk(g)):
+                    continue  # recursive
+                if sum(1 for n in _walk_own(fnode) if isinstance(n, ast.FunctionDef) and n.name == name) != 1:
+                    continue
+                h = Helper(rel, f"{q}.{name}", g, None)
+                if not h.ok or h.is_gen or any(isinstance(n, ast.Nonlocal) for n in ast.walk(g)):
+                    continue
+                inl = Inliner({name: h}, report)
+                inl.visible = {name}
+                if not inl.process_function(fnode, cls):
+                    continue
+                if not any(isinstance(n, ast.Name) and n.id == name for n in ast.walk(fnode)):
+                    # drop the definition
+                    for parent in ast.walk(fnode):
+                        for f_ in ("body", "orelse", "finalbody"):
+                            lst = getattr(parent, f_, None)
+                            if isinstance(lst, list) and any(x is g for x in lst):
+                                lst[:] = [x for x in lst if x is not g] or [ast.copy_location(ast.Pass(), g)]
+                    report.append(("removed-helper", f"{rel}:{q}.{name}"))
+                touched.add(rel)
+    for rel in touched:
+        canonicalise(trees_by_relpath[rel])
+    return touched
